@@ -10,7 +10,7 @@ From Coq Require Import String Ascii List Bool ZArith.
 From LC Require Import Common NumDefs XmlDefs EntTreeDefs PrintDefs LoadDefs RoundtripSpec XmlTextProofs
      RoundtripReadProofs RoundtripLoadProofs RoundtripFlatProofs RoundtripEncProofs RoundtripOrderProofs
      RoundtripStableProofs RoundtripMapsProofs RoundtripPathProofs RoundtripConnProofs RoundtripConnTopProofs
-     RoundtripConnFinalProofs RoundtripImportProofs RoundtripImportContentProofs RoundtripWitness.
+     RoundtripConnFinalProofs RoundtripImportProofs RoundtripImportContentProofs RoundtripWitness RoundtripStableEncProofs.
 From LCGen Require RuleTable.
 Import ListNotations.
 Local Open Scope string_scope.
@@ -105,6 +105,37 @@ Example C02_stable_env_exists :
         /\ has_math E_stable (canon_math E_stable s) = has_math E_stable s).
 Proof. exact RoundtripStableProofs.stable_env_exists. Qed.
 Print Assumptions C02_stable_env_exists.
+
+(** * second_print_stable with an ENCAPSULATION HIERARCHY of any depth (no imports, no connections), every printable model:
+      the model m1 the strict parser builds from the first document (canon m, hierarchy heads moved behind the childless
+      top-level components) is printable again, and printing m1 and parsing strictly gives EXACTLY m1 without any issue -
+      so the second document prints and parses to itself for ever: print (parse (print m1)) = print m1. *)
+Theorem C02_second_print_stable_encapsulation : forall E,
+  (forall x, num_ok E x = true -> num_ok E (round15 E x) = true /\ round15 E (round15 E x) = round15 E x) ->
+  (forall s, math_ok E s = true ->
+     math_ok E (canon_math E s) = true /\ canon_math E (canon_math E s) = canon_math E s
+     /\ has_math E (canon_math E s) = has_math E s) ->
+  forall fx m, printable E true m -> no_imports m = true -> no_connections m = true ->
+  let m1 := canon E {| m_name := m_name m; m_id := m_id m; m_encid := m_encid m; m_units := m_units m;
+                       m_comps := enc_order (m_comps m); m_eqv := [] |} in
+  load E fx true (print_tree E m) = (m1, [])
+  /\ printable E true m1 /\ print_model E true m1 = Some (print_tree E m1)
+  /\ load E fx true (print_tree E m1) = (m1, []).
+Proof. exact RoundtripStableEncProofs.second_print_stable_enc. Qed.
+Print Assumptions C02_second_print_stable_encapsulation.
+
+(** the stronger reading "the FIRST print is already stable" is false of the faithful model (and of the library: replayed):
+    component a with child b, then childless c - printable, in the fragment, with a hierarchy (non-vacuity of the theorem
+    above); the document of the re-parsed model lists c before a, so it differs from the first; the third equals the second *)
+Example C02_first_print_stable_refuted :
+  printableb E_stable true RoundtripStableEncProofs.w_order = true
+  /\ no_imports RoundtripStableEncProofs.w_order = true /\ no_connections RoundtripStableEncProofs.w_order = true
+  /\ print_tree E_stable (RoundtripStableEncProofs.reparsed E_stable RoundtripStableEncProofs.w_order)
+     <> print_tree E_stable RoundtripStableEncProofs.w_order
+  /\ print_tree E_stable (RoundtripStableEncProofs.reparsed E_stable (RoundtripStableEncProofs.reparsed E_stable RoundtripStableEncProofs.w_order))
+     = print_tree E_stable (RoundtripStableEncProofs.reparsed E_stable RoundtripStableEncProofs.w_order).
+Proof. exact RoundtripStableEncProofs.first_print_differs. Qed.
+Print Assumptions C02_first_print_stable_refuted.
 
 (** * the grouping logic of the printer, for EVERY input order *)
 
@@ -301,8 +332,8 @@ Print Assumptions C02_rules_in_table.
        transformation) and with connections (placeholder variables created by loadConnection inside imported components
        change the forest during the fold over connections, so RoundtripConnProofs.load_group's "forest unchanged"
        no longer holds).
-   second_print_stable beyond flat models (C02_second_print_stable_flat is proved): needs printable (re-parsed model),
-       i.e. edges_distinct / one_cid_per_pair / vpath_valid for the RESOLVED equivalences and invariance of printable
-       under the re-ordering of the top level; not done.
+   second_print_stable with CONNECTIONS or IMPORTS (C02_second_print_stable_flat and
+       C02_second_print_stable_encapsulation are proved: flat models and hierarchies of any depth): needs printable
+       (re-parsed model), i.e. edges_distinct / one_cid_per_pair / vpath_valid for the RESOLVED equivalences; not done.
    Both statements are CHECKED on every generated model by the correspondence run (extracted printableb / load / canon
    compared up to child order; second print and second parse compared with the model and with the first). *)
